@@ -83,6 +83,7 @@ ASSUMPTIONS = [
 ]
 
 MAX_OPEN = 6
+BLANK_THIRD = 'SUMIF-AVERAGEIF/blank-single-cell-range-taken-as-omitted-argument'
 TIE_RATE = 0.02
 
 PY = {'COUNTIF': 'countif', 'COUNTIFS': 'countifs', 'SUMIF': 'sumif', 'SUMIFS': 'sumifs',
@@ -173,21 +174,25 @@ def same_value(a, b):
     return close(float(a), float(b))
 
 
-def build_args(fname, agg, pairs):
+def build_args(fname, agg, pairs, scalar=False):
+    two_args = agg is None
+    if scalar:      # a one-cell range reaches the function as the bare cell value, as in a compiled formula
+        agg = agg[0][0] if agg is not None and shape(agg) == (1, 1) else agg
+        pairs = [(r[0][0] if shape(r) == (1, 1) else r, c) for r, c in pairs]
     flat_pairs = [x for r, c in pairs for x in (r, c)]
     if fname in ('COUNTIFS', 'COUNTIF'):
         return flat_pairs
     if fname in AGG_IFS:
         return [agg] + flat_pairs
     r, c = pairs[0]
-    return [r, c] if agg is None else [r, c, agg]
+    return [r, c] if two_args else [r, c, agg]
 
 
 class Call:
     """one library call: function name, aggregated range (or None), criteria pairs"""
 
-    def __init__(self, fname, agg, pairs):
-        self.fname, self.agg, self.pairs = fname, agg, pairs
+    def __init__(self, fname, agg, pairs, scalar=False):
+        self.fname, self.agg, self.pairs, self.scalar = fname, agg, pairs, scalar
         self.fam = FAMILY.get(fname, fname)
         self.crits = [cr.Criterion(c) for _, c in pairs]
         self._status = None
@@ -211,8 +216,13 @@ class Call:
             self._status = cr.combine([cr.positions(r, c) for (r, _), c in zip(self.pairs, self.crits)])
         return self._status
 
+    def blank_cell_as_third_argument(self):
+        """SUMIF/AVERAGEIF whose sum/average range is one blank cell, passed as a compiled formula passes it"""
+        return (self.scalar and self.fname in ('SUMIF', 'AVERAGEIF') and self.agg is not None
+                and shape(self.agg) == (1, 1) and self.agg[0][0] is None)
+
     def describe(self):
-        args = build_args(self.fname, self.agg, self.pairs)
+        args = build_args(self.fname, self.agg, self.pairs, self.scalar)
         return f'{self.fname}({", ".join(repr(a) for a in args)})'
 
 
@@ -242,6 +252,9 @@ def exc_key(call, exc):
         for c in call.crits:
             if c.kind == 'text' and c.has_wild and c.has_meta:
                 return 'wildcard-criterion/regex-metachar-unescaped'
+    if cls == 'TypeError' and call.blank_cell_as_third_argument() and any(
+            cr.cell_class(v) == 'error' for v in flat(call.pairs[0][0])):
+        return BLANK_THIRD          # the criteria range was aggregated instead of the blank cell
     if cls == 'TypeError' and call.eff_agg is not None and any(
             cr.cell_class(v) == 'error' for v in flat(call.eff_agg)):
         return f'{call.fam}/error-in-selected-cells-raises'
@@ -320,8 +333,10 @@ def diagnose_partition(r, eq, ne):
 def run_fn(K, call):
     """call pycel; report exceptions / non-values; return the value or None"""
     ctx = K.ctx
-    out = lib.call(PY[call.fname], *build_args(call.fname, call.agg, call.pairs))
+    out = lib.call(PY[call.fname], *build_args(call.fname, call.agg, call.pairs, call.scalar))
     ctx.count('fn:' + call.fname)
+    if call.scalar:
+        ctx.count('obs:single-cell-arguments')
     if out[0] == 'x':
         ctx.count('obs:exception')
         K.violate(exc_key(call, out[1]), f'{call.describe()} raised {out[1]} - "cells of any type in the '
@@ -428,7 +443,10 @@ def check_value(K, call, v):
                 problem = 'criteria-intersection' if len(call.pairs) > 1 else 'aggregation'
     if problem is None:
         return
-    key = diagnose(call.pairs) or f'{call.fam}/{problem}'
+    if call.blank_cell_as_third_argument():
+        key = BLANK_THIRD
+    else:
+        key = diagnose(call.pairs) or f'{call.fam}/{problem}'
     K.violate(key, f'{call.describe()} = {v!r}, reference ({kind}): {want}; positions '
               f'{"".join(s[0] for s in call.status)} (y/n/o row-major) - "exactly the positions whose '
               f'criteria-range cells satisfy every criterion"')
@@ -449,14 +467,14 @@ def observe(K, call, oracle=True):
         if v is not None and call.fname not in ('SUMIF', 'AVERAGEIF') and v != '#VALUE!':
             K.violate(f'{call.fam}/shape-mismatch-not-#VALUE!', f'{call.describe()} = {v!r}: ranges of different '
                       f'shapes must give #VALUE!')
-        ctx.case((call.fname, call.agg, tuple(call.pairs)), nontrivial=True)
+        ctx.case((call.fname, call.scalar, call.agg, tuple(call.pairs)), nontrivial=True)
         return v
     for c in call.crits:
         ctx.count('critclass:' + c.cls)
     if call.eff_agg is not None and any(cr.cell_class(x) == 'error' and st == cr.YES
                                         for x, st in zip(flat(call.eff_agg), call.status)):
         ctx.count('selected-error-calls')
-    ctx.case((call.fname, call.agg, tuple(call.pairs)), nontrivial=nontrivial(call))
+    ctx.case((call.fname, call.scalar, call.agg, tuple(call.pairs)), nontrivial=nontrivial(call))
     if v is not None and oracle:
         check_value(K, call, v)
     return v
@@ -468,6 +486,8 @@ def law_equal(K, name, a_call, a, b_call, b):
         return
     if not same_value(a, b):
         key = diagnose(a_call.pairs) if name == 'commute' else None
+        if a_call.blank_cell_as_third_argument():
+            key = BLANK_THIRD
         K.violate(key or f'law/{name}/{a_call.fam}', f'{a_call.describe()} = {a!r} but {b_call.describe()} = {b!r}')
 
 
@@ -544,6 +564,17 @@ def check_case(ctx, case):
                     K.violate(diagnose(pairs) or 'law/average=sum/count',
                               f'{calls[2].describe()} = {a!r} but SUMIFS/COUNTIFS = {s!r}/{n!r}')
 
+    if aligned and shape(agg) == (1, 1):
+        # one-cell ranges arrive as bare values when a formula is evaluated: same oracle, same laws
+        sres = {}
+        for call in all_calls:
+            sc = Call(call.fname, call.agg, call.pairs, scalar=True)
+            sres[(call.fname, call.agg is None)] = (sc, observe(K, sc))
+        if len(pairs) == 1:
+            for ifs, iff in (('COUNTIFS', 'COUNTIF'), ('SUMIFS', 'SUMIF'), ('AVERAGEIFS', 'AVERAGEIF')):
+                (a_call, a), (b_call, b) = sres[(iff, iff == 'COUNTIF')], sres[(ifs, ifs == 'COUNTIFS')]
+                law_equal(K, 'ifs=if', a_call, a, b_call, b)
+
     if case.get('tie'):
         tie(K, agg, pairs, all_calls)
     return K
@@ -589,7 +620,8 @@ def tie(K, agg, pairs, calls):
         ctx.count('tie:evaluate-formulas')
         ok = (got[0] == want[0] == 'x') or (got[0] == want[0] == 'v' and wb.same(got[1], want[1]))
         if not ok:
-            K.violate('evaluate/differs-from-library-call',
+            K.violate(BLANK_THIRD if Call(call.fname, call.agg, call.pairs, True).blank_cell_as_third_argument()
+                      else 'evaluate/differs-from-library-call',
                       f'{cells[target]} over {cells!r} evaluates to {got!r}, the library call gives {want!r}')
 
 
@@ -724,9 +756,11 @@ def table_case(ctx, cell, crit):
     verdict = c.status[0]
     ctx.count('table:cells-x-criteria')
     ctx.count('table:' + verdict)
-    for call in (c, s):
+    cs = Call('COUNTIF', None, [(r, crit)], scalar=True)
+    sb = Call('SUMIF', ((None,),), [(r, crit)], scalar=True)
+    for call in (c, s, cs, sb):
         v = run_fn(K, call)
-        ctx.case((call.fname, call.agg, tuple(call.pairs)), nontrivial=verdict != cr.OPEN)
+        ctx.case((call.fname, call.scalar, call.agg, tuple(call.pairs)), nontrivial=verdict != cr.OPEN)
         if v is not None:
             check_value(K, call, v)
 
